@@ -92,6 +92,9 @@ Definition output_hash (H : str -> str) (marshalled : list str) : str :=
   end.
 
 (* output hash on the no-cache / cache-disabled path (registry.go GetNoCacheOutputHash):
-   HashStrings of the handlers' content digests; output paths do not enter *)
-Definition nocache_output_hash (H : str -> str) (digests : list str) : str :=
-  H (join comma (sort_strs digests)).
+   HashStrings of "<output definition>=<content digest>" for every declared output (the digest is
+   paired with the output it belongs to: outputs exchanging their contents change the hash) *)
+Definition nocache_item (e : str * str) : str := fst e ++ ch_eq :: snd e.
+
+Definition nocache_output_hash (H : str -> str) (pairs : list (str * str)) : str :=
+  H (join comma (sort_strs (map nocache_item pairs))).
